@@ -180,9 +180,10 @@ class Core:
         """a pre-existing object is written: facts about heap-implicit predicates (wf_eval, EV, pr, ...) are
         dropped -- EV-facts always, the shape predicates unless the object is provably outside their footprint"""
         from specs.wf import HEAP_IMPLICIT, EV_SYMS, fp
-        tagged = [(i, _mentions(p)) for i, p in enumerate(st.pc)]
-        if not any(m & HEAP_IMPLICIT for _, m in tagged):
+        if not any(_mentions(p) & HEAP_IMPLICIT for p in st.pc):
             return
+        st.pc[:] = _flatten_ands(st.pc)
+        tagged = [(i, _mentions(p)) for i, p in enumerate(st.pc)]
         outside = self.impossible(st, fp(ref), 1500)
         drop = EV_SYMS if outside else HEAP_IMPLICIT
         keep = [p for (i, m), p in zip(tagged, st.pc) if not (m & drop)]
@@ -199,6 +200,8 @@ class Core:
         from specs.wf import HEAP_IMPLICIT
         keep = []
         changed = False
+        if any(_mentions(p) & HEAP_IMPLICIT for p in st.pc):
+            st.pc[:] = _flatten_ands(st.pc)
         for p in st.pc:
             m = _mentions(p)
             if not (m & HEAP_IMPLICIT):
@@ -602,4 +605,17 @@ def _mentions(t):
                 out.add(x.decl().name())
             todo.extend(x.children())
     _MS[k] = (t, out)
+    return out
+
+
+def _flatten_ands(pc):
+    """top-level conjunctions split into their conjuncts (so that dropping one conjunct keeps the others)"""
+    out = []
+    todo = list(reversed(pc))
+    while todo:
+        x = todo.pop()
+        if z3.is_and(x):
+            todo.extend(reversed(x.children()))
+        else:
+            out.append(x)
     return out
